@@ -61,7 +61,7 @@ func (c20) NumCases(tier string, _ int64) int {
 func (c20) Exhaustive(string) bool { return false }
 func (c20) Floors(string) []runner.Floor {
 	return []runner.Floor{{Stat: "range_reads_checked", Min: 20000}, {Stat: "fetcher_calls_checked", Min: 3000}, {Stat: "rebuilds_compared", Min: 1500}, {Stat: "parallel_reads_checked", Min: 2000},
-		{Stat: "lru_hits_checked", Min: 5000}, {Stat: "lru_parallel_hits_checked", Min: 5000}, {Stat: "lru_expired_reads_checked", Min: 100}}
+		{Stat: "lru_hits_checked", Min: 5000}, {Stat: "concurrent_rebuilds_compared", Min: 3000}, {Stat: "lru_parallel_hits_checked", Min: 5000}, {Stat: "lru_expired_reads_checked", Min: 100}}
 }
 
 type c20Worker struct{ *simWorker }
@@ -462,9 +462,61 @@ func (w *c20Worker) runSnapshots(res *runner.CaseResult, idx int, replay *sim.Hi
 			}
 		}
 	}
+	// concurrent rebuilds of ONE document: what handlers holding the document's read lock and
+	// the lock-free admin reads do. The cache is first made to hold an older state, so that
+	// every reader starts from the same cached entry and replays the same tail.
+	burst := func() {
+		if len(fails) > 0 || len(rows) < 3 {
+			return
+		}
+		di, err := world.DocInfo()
+		if err != nil || di == nil {
+			return
+		}
+		old := rows[hrng.Intn(len(rows)-1)].ServerSeq
+		if _, err := packs.BuildInternalDocForServerSeq(ctx, w.env.BE, di, old); err != nil {
+			return
+		}
+		head := applied
+		const readers = 6
+		got := make([]string, readers)
+		errs := make([]error, readers)
+		var wg sync.WaitGroup
+		for i := 0; i < readers; i++ {
+			wg.Add(1)
+			go func(i int) {
+				defer wg.Done()
+				doc, err := packs.BuildInternalDocForServerSeq(ctx, w.env.BE, di, head)
+				if err != nil {
+					errs[i] = err
+					return
+				}
+				got[i] = doc.Marshal()
+			}(i)
+		}
+		wg.Wait()
+		after, aerr := packs.BuildInternalDocForServerSeq(ctx, w.env.BE, di, head)
+		for i := 0; i < readers; i++ {
+			res.AddStat("concurrent_rebuilds_compared", 1)
+			if errs[i] != nil {
+				fails = append(fails, sim.Failure{Kind: "rebuild-failed", Detail: fmt.Sprintf("one of %d concurrent BuildInternalDocForServerSeq(%d) calls (cache held %d): %v", readers, head, old, errs[i])})
+				return
+			}
+			if got[i] != contents[head] {
+				fails = append(fails, sim.Failure{Kind: "cache-served-document-differs", Detail: fmt.Sprintf("one of %d concurrent BuildInternalDocForServerSeq(%d) calls (cache held %d)\n got  %s\n want %s", readers, head, old, trunc400(got[i]), trunc400(contents[head]))})
+				return
+			}
+		}
+		if aerr != nil || after.Marshal() != contents[head] {
+			fails = append(fails, sim.Failure{Kind: "cache-served-document-differs", Detail: fmt.Sprintf("BuildInternalDocForServerSeq(%d) after %d concurrent rebuilds of the same document (err=%v) differs from the change-fed shadow", head, readers, aerr)})
+		}
+	}
 	world.AfterStep = func(_ *sim.World, st sim.Step, _ *replica.Replica) {
 		if st.T == "sync" || st.T == "syncEnd" || st.T == "quiesce" || st.T == "attach" {
 			probe()
+			if hrng.Intn(4) == 0 {
+				burst()
+			}
 		}
 	}
 	var h sim.History
@@ -475,6 +527,7 @@ func (w *c20Worker) runSnapshots(res *runner.CaseResult, idx int, replay *sim.Hi
 		h = world.RunGenerated(caseRng(w.seed, idx), g)
 	}
 	probe()
+	burst()
 	if len(fails) == 0 && len(world.Fail) == 0 && applied >= 3 && idx%2 == 0 {
 		// epilogue: a compaction rewrites the log (it restarts at server sequence 1); the
 		// new generation then outgrows the old one before anything asks for the document
